@@ -355,8 +355,9 @@ def tasks(tier, seed):
         npool = len(soup_pool(lang))
         firsts = range(npool) if not quick else [(seed + 3 * j) % npool for j in range(4)]
         for f in firsts:
+            # (thorough: 25 s x 5 per first token; the three-token space of a language is covered to the depth that allows)
             add("text-soup:%s:k=%d:first=%d" % (lang, 2 if quick else 3, f), "h_text_soup",
-                {"lang": lang, "k": 2 if quick else 3, "first": f}, 100 if quick else 60)
+                {"lang": lang, "k": 2 if quick else 3, "first": f}, 100 if quick else 25)
     names = sorted(TEXTS)
     for i, nm in enumerate(names):
         fields = [p[0] for p in TEXTS[nm][0] if not isinstance(p, str)]
